@@ -100,7 +100,9 @@ static void judge(case_ctx const &c, char const *state_kind, std::string const &
 static std::string gen_payload(rng &r, int cls)
 {
 	size_t n;
-	switch (cls) { case 0: n = 0; break; case 1: n = r.range(1, 40); break; case 2: n = r.range(480, 530); break; case 3: n = r.range(1000, 1100); break; default: n = r.range(2000, 6000); }
+	switch (cls) { case 0: n = 0; break; case 1: n = r.range(1, 40); break; case 2: n = r.range(480, 530); break; case 3: n = r.range(1000, 1100); break;
+	case 5: n = r.range(33000, 70000); O().count("cases_with_payload_over_32k"); break;     // sessions of tens of KiB: whatever treats "the first N bytes" specially shows here
+	default: n = r.range(2000, 6000); }
 	std::string s = r.bytes(n);
 	if (r.chance(1, 3)) for (auto &ch : s) ch = (char)('a' + (unsigned char)ch % 3);   // low-entropy payloads make old/new mixtures more alike
 	return s;
@@ -117,7 +119,7 @@ static void run_case(rng &r, long long idx, bool thorough)
 	booster::shared_ptr<cppcms::sessions::session_storage> st = f.get();
 	// previous file state: absent, or one or two earlier saves (shorter / equal / longer than the new payload)
 	int prev = r.below(4);
-	std::string newp = gen_payload(r, r.below(5));
+	std::string newp = gen_payload(r, r.chance(1, 8) ? 5 : r.below(5));
 	saved nw; nw.payload = newp; nw.deadline = now + (r.chance(1, 6) ? -r.range(1, 50) : r.range(0, 5000));
 	c.desc = "prev=" + std::to_string(prev) + " new_len=" + std::to_string(newp.size()) + " new_dl=" + std::to_string(nw.deadline - now);
 	if (prev > 0) {
